@@ -354,7 +354,7 @@ class C11(Check):
         of each is embedded in two hosts that differ in their routes and in how they render errors; requests go to the
         hosts in a seeded order.  Whatever a host answers is about THAT host."""
         rng = Streams(base_seed)['shipped']
-        paths = ['/static/nope.txt', '/static/nope.txt', '/static/common.css', '/_meta/json/', '/_meta/json/', '/_meta/', '/nope', '/static/', '/own', '/denied', '/denied', '/gone']
+        paths = ['/static/nope.txt', '/static/nope.txt', '/static/common.css', '/_meta/json/', '/_meta/json/', '/_meta/', '/nope', '/static/', '/own', '/denied', '/denied', '/gone', '/inner/denied', '/inner/gone', '/inner/denied']
         for k in range(40 if tier == 'quick' else 400):
             n1 = rng.randint(0, 3)
             n2 = n1 if rng.random() < 0.6 else rng.randint(0, 3)       # (often the same NUMBER of routes, never the same routes)
@@ -396,16 +396,27 @@ class C11(Check):
             def ep_gone():
                 raise gone
             shared_routes = [Route('/denied', lambda: denied), Route('/gone', ep_gone)]
+            # an application of the program's own (its errors stamped 'inner') with the same endpoints, embedded in both hosts
+            # and also served on its own
+            inner_app = Application([Route('/denied', lambda: denied), Route('/gone', ep_gone)], error_handler=handler('inner'))
             hosts, own = {}, {}
             for i, tag in enumerate(['h1', 'h2']):
                 routes = [('/own', (lambda tag=tag: Response('own:' + tag)))]
                 routes += [('/%s/r%d/<x>' % (tag, j), (lambda x, tag=tag: Response(tag))) for j in range(sp['extra_routes'][i])]
                 s_app = static if sp['static_shared'] or i == 0 else StaticApplication(cmeta._ASSET_PATH)
                 m_app = meta if sp['meta_shared'] or i == 0 else MetaApplication()
-                hosts[tag] = Application(routes + [('/static/', s_app), ('/_meta/', m_app)] + shared_routes, error_handler=handler(tag))
+                hosts[tag] = Application(routes + [('/static/', s_app), ('/_meta/', m_app), ('/inner', inner_app)] + shared_routes, error_handler=handler(tag))
                 own[tag] = [r.pattern for r in hosts[tag].routes]
             # the embedded applications are also served on their own (each still is an application in its own right)
             for step, (tag, path) in enumerate(sp['seq']):
+                if tag == 'alone' and path.startswith('/inner/'):
+                    ex = call_app(inner_app, make_environ('GET', path[len('/inner'):], headers={'Accept': 'text/plain'}), validate=False)
+                    res.ev(step, 'inner alone', path, ex.code, ex.header('X-Err-Host'))
+                    if ex.code not in (403, 410) or ex.header('X-Err-Host') != 'inner':
+                        res.violate(K + 'embedded-application-changed-by-embedding', 'step %d: the inner application served on its own answers %s %s with '
+                                    'the error rendering of %r (its own handler stamps "inner")\n%s' % (step, path[len('/inner'):], ex.code, ex.header('X-Err-Host'), sp['seq'][:step + 1]), step)
+                        break
+                    continue
                 if tag == 'alone':
                     app, rel = (static, path[len('/static'):]) if path.startswith('/static/') else (meta, path[len('/_meta'):]) if path.startswith('/_meta/') else (None, None)
                     if app is None:
@@ -426,7 +437,7 @@ class C11(Check):
                 if ex.escaped is not None:
                     res.violate(K + 'exception-escaped:%s' % type(ex.escaped).__name__, ctx + ' -> %r' % (ex.escaped,), step)
                     break
-                want = {'/static/nope.txt': 404, '/nope': 404, '/static/common.css': 200, '/_meta/': 200, '/_meta/json/': 200, '/own': 200, '/denied': 403, '/gone': 410}.get(path)
+                want = {'/static/nope.txt': 404, '/nope': 404, '/static/common.css': 200, '/_meta/': 200, '/_meta/json/': 200, '/own': 200, '/denied': 403, '/gone': 410, '/inner/denied': 403, '/inner/gone': 410}.get(path)
                 if want is not None and ex.code != want:
                     res.violate(K + 'status-%s-not-%s' % (ex.code, want), ctx + ' -> %s' % ex.status, step)
                     break
